@@ -109,6 +109,13 @@ def ev(e, **kw):
             fcntl.flock(f, fcntl.LOCK_EX)
             f.write(json.dumps(d) + '\n')
             f.flush()
+            # wall-clock stamp of every event, kept OUTSIDE the trace (progress evidence for harness/rtcheck.run_real_scenarios)
+            try:
+                import time
+                with open(os.path.join(TRACE_DIR, 'times.txt'), 'a') as g:
+                    g.write('%.3f\n' % time.time())
+            except OSError:
+                pass
             fcntl.flock(f, fcntl.LOCK_UN)
         return
     LOG.append(d)
